@@ -500,6 +500,13 @@ def case_mapping(case):
 SPECIAL_KEYS = {  # mapping key (Display of the special type) -> (IR builder name, Rust source)
     "String": ("String", "String"), "U53": ("U53", "U53"), "I54": ("I54", "I54"), "u32": ("U32", "u32"), "u8": ("U8", "u8"), "bool": ("Bool", "bool"),
     "f64": ("F64", "f64"), "char": ("Char", "char"), "()": ("Unit", "()"),
+    # container instances (keyed by the Display of the whole type)
+    "Vec<u8>": (lambda ir: ir.vec(ir.special("U8")), "Vec<u8>"),
+    "Vec<Vec<u8>>": (lambda ir: ir.vec(ir.vec(ir.special("U8"))), "Vec<Vec<u8>>"),
+    "HashMap<String,Vec<u8>>": (lambda ir: ir.hashmap(ir.special("String"), ir.vec(ir.special("U8"))), "HashMap<String, Vec<u8>>"),
+    "Vec<Option<u32>>": (lambda ir: ir.vec(ir.option(ir.special("U32"))), "Vec<Option<u32>>"),
+    "Option<String>": (lambda ir: ir.option(ir.special("String")), "Option<String>"),
+    "Vec<Other>": (lambda ir: ir.vec(ir.simple("Other")), "Vec<Other>"),
 }
 SPECIAL_WRAPS = ["plain", "vec", "option", "map_value", "generic_arg"]
 
@@ -518,7 +525,8 @@ def case_mapping_special(case):
         I.assume(z3.And(z3.UGE(sym, 97), z3.ULE(sym, 122)))
         mapped = RString([ord(c) for c in "Mapped"] + [sym])
         lg = bharness.make_lang(I, lang, {"type_mappings": {key: mapped}})
-        t = ir.special(SPECIAL_KEYS[key][0])
+        b = SPECIAL_KEYS[key][0]
+        t = b(ir) if callable(b) else ir.special(b)
         if wrap == "vec":
             t = ir.vec(t)
         elif wrap == "option":
@@ -587,7 +595,7 @@ def run(rep, tier, only=None):
     rep.outside = ["usize/isize/u64/i64 (rejected by the parser, C08)", "Swift `char` (Unicode.Scalar: Codable conformance is user code)", "container-instance mappings such as \"Vec<u8>\" (C12 exercises the Uint8Array / bytes mappings)"]
     rep.assumptions = ["target type ranges/categories are an independent table in checks/c05.py (Go `int` taken as 32 bits)", "documented target shapes (templates) restated in checks/c05.py"]
     ms_cases = [(lang, k, w) for lang in ("typescript", "python") for k in SPECIAL_KEYS for w in SPECIAL_WRAPS]
-    rep.bounds["special-type mappings"] = "TypeScript and Python: a mapping keyed by %s, at positions %s, mapped text with a symbolic character" % (sorted(SPECIAL_KEYS), SPECIAL_WRAPS)
+    rep.bounds["special-type mappings"] = "TypeScript and Python: a mapping keyed by a scalar special type or a (nested) container instance %s, at positions %s, mapped text with a symbolic character" % (sorted(SPECIAL_KEYS), SPECIAL_WRAPS)
     groups = [("parser", "case_p", p_cases), ("shape", "case_shape", s_cases), ("primitive", "case_prim", pr_cases), ("mapping", "case_mapping", m_cases), ("mapping-special", "case_mapping_special", ms_cases)]
     reported = set()
     for gname, fn, cases in groups:
